@@ -362,6 +362,10 @@ package git
 //@ func (*Repository).GitPath
 //@   pure
 //@   call 0 GitCommand assert len(arg_1) == 3 && arg_1[0] == "rev-parse" && arg_1[1] == "--git-path" && same(arg_1[2], relPath)
+//@   call 0 Cmd).Output as out
+//@   ensures out_reached
+//@   ensures out1 != nil ==> result1 != nil
+//@   ensures result1 == nil ==> out1 == nil
 // gitconfig scalars (C14): the value is what `git config --get [--bool|--int]
 // <key>` prints, for exactly the key asked for; git's "not set" (exit status 1,
 // A-GIT-CONFIG-GET) yields the default without an error; every other failure
@@ -429,10 +433,10 @@ package git
 //@ lemma last_match_step: forall a, anyM, last, p0, p, m bool :: a == ite(anyM, last, !p0) ==> ite(p, a || m, a && !m) == ite(anyM || m, ite(m, p, last), !p0)
 
 //@ property C06: (prefixFilter).Filter (inverse).Filter (intersection).Filter (union).Filter (allReferencesFilter).Filter (noReferencesFilter).Filter (regexpFilter).Filter (include).Combine (exclude).Combine (include).Inverted (exclude).Inverted PrefixFilter RegexpFilter lemma/last_match_base lemma/last_match_step
-//@ property C13: (*Repository).GitCommand (*Repository).IsFull NewRepositoryFromGitDir
+//@ property C13: (*Repository).GitCommand (*Repository).IsFull NewRepositoryFromGitDir (*Repository).GitPath
 //@ property C17: (*Repository).GitCommand (*Repository).GetConfig (*Repository).GitPath (*Repository).ConfigStringDefault (*Repository).ConfigBoolDefault (*Repository).ConfigIntDefault (*Repository).ResolveObject (*Repository).NewObjectIter (*Repository).NewBatchObjectIter (*Repository).NewReferenceIter
 //@ property C13: structural/exec-command-sites
-//@ property C17: structural/exec-command-sites structural/gitcommand-callers structural/no-write-apis structural/no-map-iteration structural/atomic-consistency
+//@ property C17: structural/exec-command-sites structural/gitcommand-callers structural/no-write-apis structural/no-map-iteration structural/atomic-consistency structural/no-shared-globals
 //@ property C01: (*Repository).NewObjectIter (*Repository).NewBatchObjectIter (*Repository).NewReferenceIter
 //@ property C03: (*Repository).NewObjectIter
 //@ property C09: (*Repository).NewObjectIter (*Repository).NewBatchObjectIter structural/no-map-iteration
@@ -486,7 +490,15 @@ package git
 //@   recv 1 assert !ok
 //@   ensures result1 ==> result2 == nil
 
+// Handing an object id to an iterator changes nothing the module can read; it
+// fails only when the context is done.
+//@ func (*ObjectIter).AddRoot
+//@   pure
+//@ func (*BatchObjectIter).RequestObject
+//@   pure
+
 //@ property C10: (*ObjectIter).Next (*BatchObjectIter).Next (*ReferenceIter).Next
+//@ property C01: (*ObjectIter).AddRoot (*BatchObjectIter).RequestObject
 
 // ---------------------------------------------------------------- pipeline stages of NewObjectIter (C01, C16)
 // request-objects ($1): every object id taken from the channel is written as
